@@ -98,3 +98,15 @@ Print Assumptions C01_delete_count_exact.
 (* every remaining property theorem of this file *)
 Print Assumptions C01_range_explicit.
 Print Assumptions C01_range_wildcard.
+
+(* ---- API layer end to end (Model/Api.v: KVServer -> Engine -> ActiveTable -> state machine) ---- *)
+From Verif Require Model.Api Proofs.ApiFacts.
+
+(* every response of every request sequence sent through the key-value API to freshly created tables - over the state
+   machines on the encoded key space, with validation, table lookup, command construction and result decoding in
+   between - equals the response of the same API over plain sorted maps *)
+Theorem C01_api_refines : forall (names : list bytes) (qs : list (N * Api.api_req)),
+  Forall (fun iq => u64 (fst iq)) qs ->
+  snd (Api.impl_run (Api.fresh_impl names) qs) = snd (Api.spec_run (Api.fresh_spec names) qs).
+Proof. exact ApiFacts.api_refines_from_fresh. Qed.
+Print Assumptions C01_api_refines.
